@@ -61,6 +61,8 @@ def _spec_side(builder, side: dict):
         return builder.are_sub_modules_of(arg)
     if kind == "regex":
         return builder.have_name_matching(names[0])
+    if kind == "regex-batch":  # several regular expressions in one call (subjects and objects can be given in batch)
+        return builder.have_name_matching(list(names))
     if kind == "partial":
         return builder.have_name_containing(arg)
     raise ValueError(kind)
